@@ -183,9 +183,9 @@ class C20(Prop):
             os.chmod(os.path.join(d, "simple_ddl_parser"), 0o555)
         return d
 
-    def run_child(self, d, batch_path, mode="batch"):
+    def run_child(self, d, batch_path, mode="batch", optimized=False):
         env = dict(os.environ, PYTHONPATH=d, PYTHONHASHSEED="0", PYTHONDONTWRITEBYTECODE="1")
-        return subprocess.Popen([sys.executable, "-c", CHILD, batch_path, mode], env=env, cwd=d, stdout=subprocess.PIPE, stderr=subprocess.PIPE)
+        return subprocess.Popen([sys.executable] + (["-O"] if optimized else []) + ["-c", CHILD, batch_path, mode], env=env, cwd=d, stdout=subprocess.PIPE, stderr=subprocess.PIPE)
 
     def collect(self, proc, what):
         so, se = proc.communicate(timeout=3000)
@@ -225,9 +225,11 @@ class C20(Prop):
             for t in universe.REJECTED + c16.TRUNCATED:
                 names = {"a": "col_a", "b": "col_b", "t": "tbl", "s": "sch", "u": "usr", "v": "vw", "f": "fn"}
                 batch.append({"ddl": "CREATE TABLE t_ok (a int);\n" + t.format(**names) + "\n", "ctor": {"silent": False}, "run": {}})
-                batch.append({"ddl": t.format(**names), "ctor": {"silent": False}, "run": {}, "first": "truncated" if t in c16.TRUNCATED else "rejected"})
-            for k in range(0, len(universe.corpus()), 40):
+                batch.append({"ddl": t.format(**names), "ctor": {"silent": False, "normalize_names": (len(batch) // 2) % 2 == 0}, "run": {},
+                              "first": "truncated" if t in c16.TRUNCATED else "rejected"})
+            for j, k in enumerate(range(0, len(universe.corpus()), 40)):
                 batch[k]["first"] = "corpus"
+                batch[k]["ctor"] = dict(batch[k]["ctor"], normalize_names=j % 2 == 0)
             batch_path = os.path.join(base, "batch.json")
             with open(batch_path, "w") as f:
                 json.dump(batch, f)
@@ -266,6 +268,10 @@ class C20(Prop):
                         continue
                     dirs[s] = self.make_state(s, base, fresh_tab, foreign_tab)
                     procs[s] = self.run_child(dirs[s], batch_path)
+                # the interpreter's -O switch is no licence to trust a cache file of another grammar
+                for s in ("foreign_grammar", "stale_signature"):
+                    dirs[s + "/python -O"] = self.make_state(s, os.path.join(base, "opt"), fresh_tab, foreign_tab)
+                    procs[s + "/python -O"] = self.run_child(dirs[s + "/python -O"], batch_path, optimized=True)
                 cli_procs = {}
                 cli_path = os.path.join(base, "cli.json")
                 with open(cli_path, "w") as f:
@@ -308,13 +314,13 @@ class C20(Prop):
                 diffs = [k for k, (a, b) in enumerate(zip(r["results"], ref["results"])) if (a[:2] != b[:2] or (a[0] == "exc" and a[2] != b[2]))]
                 evals += len(r["results"])
                 for k, a in enumerate(r["results"]):
-                    if s in regen_states and a[0] == "ok" and a[2]:
+                    if s.split("/")[0] in regen_states and a[0] == "ok" and a[2]:
                         pairs.add((s, k))
                 if diffs:
                     k = diffs[0]
                     violations.append(("results-differ:" + s, "cache state %r: %d of %d scripts give another result than with a valid cache, e.g. %r -> %r vs %r" % (
                         s, len(diffs), len(ref["results"]), batch[k]["ddl"][:300], r["results"][k], ref["results"][k]), dict(case, script=batch[k])))
-                if s in regen_states and s != "read_only_missing" and fresh_sha:
+                if s.split("/")[0] in regen_states and s != "read_only_missing" and fresh_sha:
                     left = sha1_file(os.path.join(dirs[s], "simple_ddl_parser", "parsetab.py"))
                     if left != fresh_sha:
                         violations.append(("rewritten-file-differs:" + s, "cache state %r: parsetab.py left behind (%s) is not the fresh generation (%s)" % (s, left and left[:12], fresh_sha[:12]), case))
